@@ -297,7 +297,7 @@ def judge(ctx, a, res, sample=False):
         return
     witness = dict(args=a, result={k: v.get(k) for k in (
         "api", "verdict", "window", "active", "drained", "callers", "blocked", "vthread", "pthread",
-        "k", "k_where", "k_reached", "relay_gone", "v_exception", "call_made", "v_tail", "crashes")})
+        "k", "k_where", "k_reached", "relay_gone", "v_exception", "call_made", "v_tail", "crashes", "link_log", "msgs_total", "phases", "inject_error")})
     if verdict == "ok":
         ctx.count("transport_inactive_after_loss")
         for c in v.get("callers") or []:
@@ -327,7 +327,7 @@ def judge(ctx, a, res, sample=False):
     if verdict == "still_active":
         vt = v.get("vthread") or {}
         if a["loss"] == "garbage" and not v.get("v_tail"):
-            ctx.inconclusive("case %s: no evidence that the victim received the garbage" % (a,))
+            ctx.inconclusive("case %s: no evidence that the victim received the garbage: %s" % (a, witness["result"]))
             return
         ctx.count("hangs_at_quiescence")
         crash = [c for c in v.get("crashes") or [] if c.get("victim")]
